@@ -226,7 +226,7 @@ def obligations(tier):
     if tier == "quick":
         mat = [m for m in mat if not (m[0] == "K1" and m[2] in ("o", "u", "lit", "f"))]
     for kind in ("redecorated", "plain-subclass", "lazy-redecorated", "post-init-copy", "frozen-do-not-copy"):
-        obs.append(Ob(f"C07.special.{kind}", make_special(kind), [(3, 4, op) for op in range(10)], f"frozen status through {kind}: frozen class A(x, ys) and its non-frozen twin; instance of a re-decorated / plain / lazily bootstrapped subclass, or a copy made in __post_init__; assignment, deletion, _inplace helpers must be refused, copy-on-write helpers equal the twin; symbolic values", expect={"ok", "refused"}, timeout=T))
+        obs.append(Ob(f"C07.special.{kind}", make_special(kind), [(3, 4, op) for op in range(10)], f"frozen status through {kind}: frozen class A(x, ys) and its non-frozen twin; instance of a re-decorated / plain / lazily bootstrapped subclass, or a copy made in __post_init__; assignment, deletion, _inplace helpers must be refused, copy-on-write helpers equal the twin; symbolic values", expect={"refused"} if kind == "frozen-do-not-copy" else {"ok", "refused"}, timeout=T))
     for tmpl, opname, attr, conform, ip in mat:
         obs.append(Ob(f"C07.{tmpl}.{opname}{'.' + attr if attr else ''}.{'conf' if conform else 'illtyped'}.{'inplace' if ip else 'copy'}", make(tmpl, opname, attr, conform, ip), _warm(), f"frozen {tmpl} vs non-frozen twin built from the same symbolic leaves; operation {opname}{' on ' + attr if attr else ''}; {'_inplace=True / assignment / deletion' if ip else 'copy-on-write'}", expect=set(), timeout=T))
     return obs
